@@ -91,6 +91,9 @@ type Script struct {
 	AuthErr     []Decision   `json:"auth_err,omitempty"` // decision of Auth(mech) itself
 	SASL        []SASLScript `json:"sasl,omitempty"`
 	LogoutErr   bool         `json:"logout_err,omitempty"`
+	// GateCalls parks the named callbacks ("NewSession", "Mail", "Rcpt") on a
+	// harness gate "<name><ordinal>" after their begin event.
+	GateCalls []string `json:"gate_calls,omitempty"`
 	// GateStart parks the library's BDAT delivery goroutine on a harness gate
 	// ("start<n>") before it calls the backend (needs the verif hook).
 	GateStart bool `json:"gate_start,omitempty"`
@@ -320,6 +323,15 @@ func (b *Backend) bdatStart() {
 	b.waitGate(fmt.Sprintf("start%d", n))
 }
 
+func (b *Backend) gated(cb string) bool {
+	for _, g := range b.script.GateCalls {
+		if g == cb {
+			return true
+		}
+	}
+	return false
+}
+
 func pick(list []Decision, i int) Decision {
 	if i < len(list) {
 		return list[i]
@@ -337,6 +349,9 @@ func (b *Backend) NewSession(c *smtp.Conn) (sess smtp.Session, err error) {
 	_, isTLS := c.TLSConnectionState()
 	host := c.Hostname()
 	b.record(Event{Sess: -1, CB: "NewSession", Begin: true, Hostname: host, TLS: isTLS})
+	if b.gated("NewSession") {
+		b.waitGate(fmt.Sprintf("NewSession%d", ord))
+	}
 	d := pick(b.script.NewSession, ord)
 	defer func() {
 		if p := recover(); p != nil {
@@ -430,6 +445,9 @@ func (s *session) Mail(from string, opts *smtp.MailOptions) (err error) {
 	o := copyMailOpts(opts)
 	b.record(Event{Sess: s.id, CB: "Mail", Begin: true, From: from, MailOpts: o})
 	defer s.guard("Mail", Event{From: from, MailOpts: o})
+	if b.gated("Mail") {
+		b.waitGate(fmt.Sprintf("Mail%d", ord))
+	}
 	err = pick(b.script.Mail, ord).Err()
 	b.record(Event{Sess: s.id, CB: "Mail", From: from, MailOpts: o, Err: err})
 	return err
@@ -444,6 +462,9 @@ func (s *session) Rcpt(to string, opts *smtp.RcptOptions) (err error) {
 	o := copyRcptOpts(opts)
 	b.record(Event{Sess: s.id, CB: "Rcpt", Begin: true, To: to, RcptOpts: o})
 	defer s.guard("Rcpt", Event{To: to, RcptOpts: o})
+	if b.gated("Rcpt") {
+		b.waitGate(fmt.Sprintf("Rcpt%d", ord))
+	}
 	err = pick(b.script.Rcpt, ord).Err()
 	b.record(Event{Sess: s.id, CB: "Rcpt", To: to, RcptOpts: o, Err: err})
 	return err
